@@ -403,12 +403,17 @@ def check_trace(chk, recs, ctxs, label="TraceTimeCorr", max_rejects=4, tol=1e-9)
 
 
 def finish(chk):
-    """one representative of every distinct clause first (the report prints the first 20 violations), and the
-    clause statistics in the evidence"""
+    """one representative of every distinct clause first (the report prints the first 20 violations), the clauses
+    of the plain float64 / complex128 rendering before those of typed renderings whose results stay in the
+    type's range, before sums-leave-dtype, before products-leave-dtype; clause statistics go into the evidence"""
+    def rank(clause):
+        return (3 if "products-leave-dtype" in clause else 2 if "sums-leave-dtype" in clause
+                else 1 if clause.count(":") >= 3 or ":layout-" in clause else 0, clause)
     seen, first, rest = set(), [], []
     for v in chk.violations:
         (rest if v[0] in seen else first).append(v)
         seen.add(v[0])
+    first.sort(key=lambda v: rank(v[0]))
     chk.violations[:] = first + rest
     if chk.violations:
         chk.extra["violated_clauses"] = dict(collections.Counter(v[0] for v in chk.violations))
